@@ -16,6 +16,7 @@ import (
 	appsv1 "k8s.io/api/apps/v1"
 	corev1 "k8s.io/api/core/v1"
 	policyv1 "k8s.io/api/policy/v1"
+	resourcev1 "k8s.io/api/resource/v1"
 	storagev1 "k8s.io/api/storage/v1"
 	metav1 "k8s.io/apimachinery/pkg/apis/meta/v1"
 	"k8s.io/apimachinery/pkg/types"
@@ -129,6 +130,29 @@ func apiEntries(e *Env, out Snapshot) (Snapshot, error) {
 	for i := range evs.Items {
 		add("Event", &evs.Items[i])
 	}
+	if e.Ext != nil && e.Ext.DRA != nil {
+		var rcs resourcev1.ResourceClaimList
+		if err := c.List(e.Ctx, &rcs); err != nil {
+			return nil, err
+		}
+		for i := range rcs.Items {
+			add("ResourceClaim", &rcs.Items[i])
+		}
+		var rss resourcev1.ResourceSliceList
+		if err := c.List(e.Ctx, &rss); err != nil {
+			return nil, err
+		}
+		for i := range rss.Items {
+			add("ResourceSlice", &rss.Items[i])
+		}
+		var dcs resourcev1.DeviceClassList
+		if err := c.List(e.Ctx, &dcs); err != nil {
+			return nil, err
+		}
+		for i := range dcs.Items {
+			add("DeviceClass", &dcs.Items[i])
+		}
+	}
 	var nss corev1.NamespaceList
 	if err := c.List(e.Ctx, &nss); err != nil {
 		return nil, err
@@ -221,6 +245,30 @@ func providerEntries(e *Env, out Snapshot) Snapshot {
 	return out
 }
 
+// draLinks: fields of the deviceallocation controller that hold no state of the world
+var draLinks = map[string]bool{"kubeClient": true, "mu": true, "hydrationCh": true, "hydrationOnce": true}
+
+// draEntries: the deviceallocation controller's view of the allocated in-cluster devices (every field: the per-device
+// metadata with consumed capacities / contributions / pod UIDs, the claims per device, the per-claim metadata), which the
+// Provisioner hands to every scheduler it builds; and, per instance type, the ResourceSlice templates once more split
+// into their parts so that a violation says what moved (they are also part of the InstanceType's field digest)
+func draEntries(e *Env, out Snapshot) Snapshot {
+	if e.Dev == nil {
+		return out
+	}
+	out = structFields(out, "dra", "deviceallocation", e.Dev, nil, draLinks)
+	for _, it := range e.W.CP.InstanceTypes {
+		for i, t := range it.DynamicResources.ResourceSliceTemplates {
+			obj := fmt.Sprintf("%s/template[%d]", it.Name, i)
+			out = append(out, Entry{"provider", obj, "ResourceSliceTemplate.SharedCounters", Digest(&t.SharedCounters, nil)})
+			out = append(out, Entry{"provider", obj, "ResourceSliceTemplate.Devices", Digest(&t.Devices, nil)})
+			out = append(out, Entry{"provider", obj, "ResourceSliceTemplate", Digest(t, nil)})
+		}
+		out = append(out, Entry{"provider", it.Name, "ResourceSliceTemplates.len", fmt.Sprint(len(it.DynamicResources.ResourceSliceTemplates))})
+	}
+	return out
+}
+
 // podEntries splits a shared pod into the parts a leak could touch, so that a violation can be told apart by what
 // changed: the topology spread constraints, the preferred node-affinity terms as a set and their order, everything else.
 func podEntries(out Snapshot, obj string, p *corev1.Pod) Snapshot {
@@ -281,6 +329,7 @@ func (e *Env) Take(cands []*disruption.Candidate) (Snapshot, error) {
 	}
 	out = clusterEntries(e, out)
 	out = providerEntries(e, out)
+	out = draEntries(e, out)
 	out = e.inputEntries(cands, out)
 	return out.sorted(), nil
 }
